@@ -324,6 +324,15 @@ fn apply_inner(p: &Prog, cands: &[Cand], m: &mut Model, a: &Action, k_idx: usize
                         addrs.push(addr);
                         nums.push(v["num"].as_u64().unwrap_or(0));
                     }
+                    // one breakpoint per address: a new one replaces what another designator put there
+                    for (other, (oa, on)) in m.enabled.iter_mut() {
+                        if other != c {
+                            let keep: Vec<usize> = (0..oa.len()).filter(|i| !addrs.contains(&oa[*i])).collect();
+                            *on = keep.iter().filter_map(|i| on.get(*i).copied()).collect();
+                            *oa = keep.iter().map(|i| oa[*i]).collect();
+                        }
+                    }
+                    m.enabled.retain(|other, (oa, _)| other == c || !oa.is_empty());
                     m.enabled.insert(*c, (addrs, nums));
                 } else if or.projection {
                     f.push(Finding { sig: format!("{prop}:add-failed:{}", res["err"].as_str().unwrap_or("?")), detail: format!("[{}] {} failed: {}", p.name(), hist(k), res["msg"]) });
@@ -331,7 +340,24 @@ fn apply_inner(p: &Prog, cands: &[Cand], m: &mut Model, a: &Action, k_idx: usize
             }
             Action::Remove(c, _) => {
                 if ok {
-                    m.enabled.remove(c);
+                    // the debugger says what it removed: breakpoints live at addresses, whoever set them
+                    let views = res["views"].as_array().cloned().unwrap_or_default();
+                    let removed: Vec<u64> = views.iter().map(|v| v["addr"].as_u64().unwrap_or(0) + if v["global"].as_bool().unwrap_or(false) { p.base } else { 0 }).collect();
+                    if views.is_empty() && m.enabled.contains_key(c) {
+                        // nothing removed although the designator's breakpoint exists
+                        if or.projection {
+                            let when = if m.exited { "after-exit" } else if !m.started { "before-start" } else { "while-stopped" };
+                            f.push(Finding { sig: format!("{prop}:remove:existing-breakpoint-not-removed:{when}"), detail: format!("[{}] {}: the breakpoint of this designator is listed, the debugger removed nothing ({res})", p.name(), hist(k)) });
+                        }
+                    } else {
+                        m.enabled.remove(c);
+                        for (_, (oa, on)) in m.enabled.iter_mut() {
+                            let keep: Vec<usize> = (0..oa.len()).filter(|i| !removed.contains(&oa[*i])).collect();
+                            *on = keep.iter().filter_map(|i| on.get(*i).copied()).collect();
+                            *oa = keep.iter().map(|i| oa[*i]).collect();
+                        }
+                        m.enabled.retain(|_, (oa, _)| !oa.is_empty());
+                    }
                 } else if or.projection {
                     f.push(Finding { sig: format!("{prop}:remove-failed"), detail: format!("[{}] {}: {}", p.name(), hist(k), res["msg"]) });
                 }
@@ -547,6 +573,14 @@ fn apply_inner(p: &Prog, cands: &[Cand], m: &mut Model, a: &Action, k_idx: usize
                 if m.pending_sigint {
                     m.pending_sigint = false;
                     let said_so = o["events"].as_array().map(|v| v.iter().any(|e| e["ev"] == "signal" && e["sig"].as_i64() == Some(2))).unwrap_or(false);
+                    // outside of main (in `_start`: no debug information, no caller) a source-level
+                    // step may not resume the program at all: then the signal simply stays pending
+                    let outside = before.map(|i| p.depth(i) == 0 || p.dref.func_at(t.steps[i].pc.wrapping_sub(p.base)).is_none()).unwrap_or(true);
+                    let here = locate(t, m.idx.unwrap_or(0), &o["real"]);
+                    if !said_so && outside && !matches!(a, Action::Stepi) && (here == before || here.is_none()) {
+                        m.pending_sigint = true;
+                        return;
+                    }
                     if !said_so && or.signals {
                         f.push(Finding { sig: format!("{prop}:pending-SIGINT-not-reported:during-{}", action_kind(a)), detail: format!("[{}] {}: a SIGINT was pending when the step started; no signal was reported ({res})", p.name(), hist(k)) });
                     }
@@ -909,9 +943,11 @@ pub fn canon(m: &Model, last_obs: Option<&Value>) -> String {
         .and_then(|o| o["text_diff"].as_array())
         .map(|v| v.iter().filter_map(|e| e[0].as_u64()).collect())
         .unwrap_or_default();
-    let bps: Vec<u64> = last_obs
+    // the form of the stored address (global / relocated) is hidden state that decides how a later
+    // removal by address behaves: keep it in the key
+    let bps: Vec<(u64, bool)> = last_obs
         .and_then(|o| o["bps"].as_array())
-        .map(|v| v.iter().filter_map(|e| e["addr"].as_u64()).collect())
+        .map(|v| v.iter().filter_map(|e| e["addr"].as_u64().map(|a| (a, e["global"].as_bool().unwrap_or(false)))).collect())
         .unwrap_or_default();
     format!(
         "{}|{}|{:?}|{:?}|{:x?}|{:x?}|{}|{}|{:?}|{}|{}|{}",
@@ -1119,44 +1155,50 @@ pub fn explore_program(p: &Prog, cands: &[Cand], cfg: &ExploreCfg, part: &mut Pa
 
 fn walk(p: &Prog, cands: &[Cand], cfg: &ExploreCfg, shared: &Mutex<Shared>, start_key: String, first_action: Action, prefix: Vec<Action>) {
     let replay_of = |path: &[Action]| json!({"engine":"e2e","prop":cfg.prop,"exe":p.built.exe,"cands":cands,"path":path,"history":path.iter().map(|a| a.label(cands)).collect::<Vec<_>>()});
-    let mut sess = match ISession::start("e2e", &init_json(p, cfg.oracles.bt)) {
-        Ok(s) => s,
-        Err(e) => {
-            shared.lock().unwrap().errors.push(format!("cannot start worker: {e}"));
-            return;
-        }
-    };
-    shared.lock().unwrap().sessions += 1;
-    let mut m = Model::default();
-    let mut path: Vec<Action> = vec![];
-    let mut findings: Vec<Finding> = vec![];
-    let mut last_obs: Option<Value> = None;
     let timeout = Duration::from_secs(90);
-    // ---- replay the prefix
-    for a in &prefix {
-        path.push(a.clone());
-        match sess.cmd(&command_json(p, cands, a), timeout) {
-            Ok(o) => {
-                apply(p, cands, &mut m, &path, &o, &cfg.oracles, cfg.prop, &mut findings);
-                last_obs = Some(o);
-            }
+    let mut attempt = 0;
+    let (mut sess, mut m, mut path, mut findings, mut last_obs) = loop {
+        attempt += 1;
+        let mut sess = match ISession::start("e2e", &init_json(p, cfg.oracles.bt)) {
+            Ok(s) => s,
             Err(e) => {
-                shared.lock().unwrap().errors.push(format!("[{}] replaying known prefix {:?} failed: {e:?}", p.name(), path.iter().map(|a| a.label(cands)).collect::<Vec<_>>()));
+                shared.lock().unwrap().errors.push(format!("cannot start worker: {e}"));
                 return;
             }
+        };
+        shared.lock().unwrap().sessions += 1;
+        let mut m = Model::default();
+        let mut path: Vec<Action> = vec![];
+        let mut findings: Vec<Finding> = vec![];
+        let mut last_obs: Option<Value> = None;
+        // ---- replay the prefix
+        let mut failed: Option<String> = None;
+        for a in &prefix {
+            path.push(a.clone());
+            match sess.cmd(&command_json(p, cands, a), timeout) {
+                Ok(o) => {
+                    apply(p, cands, &mut m, &path, &o, &cfg.oracles, cfg.prop, &mut findings);
+                    last_obs = Some(o);
+                }
+                Err(e) => {
+                    failed = Some(format!("[{}] replaying known prefix {:?} failed: {e:?}", p.name(), path.iter().map(|a| a.label(cands)).collect::<Vec<_>>()));
+                    break;
+                }
+            }
+            shared.lock().unwrap().replayed_steps += 1;
         }
-        shared.lock().unwrap().replayed_steps += 1;
-    }
-    if canon(&m, last_obs.as_ref()) != start_key {
-        shared.lock().unwrap().errors.push(format!(
-            "[{}] nondeterminism: replaying {:?} reached {} instead of {}",
-            p.name(),
-            path.iter().map(|a| a.label(cands)).collect::<Vec<_>>(),
-            canon(&m, last_obs.as_ref()),
-            start_key
-        ));
-        return;
-    }
+        let reached = canon(&m, last_obs.as_ref());
+        if failed.is_none() && reached == start_key {
+            break (sess, m, path, findings, last_obs);
+        }
+        // the state is located by hashes of the machine state; a rare mislocation (or a worker
+        // that died under load) is retried twice before it counts as nondeterminism
+        if attempt >= 3 {
+            shared.lock().unwrap().errors.push(failed.unwrap_or_else(|| format!("[{}] nondeterminism: replaying {:?} reached {} instead of {} (3 attempts)", p.name(), path.iter().map(|a| a.label(cands)).collect::<Vec<_>>(), reached, start_key)));
+            return;
+        }
+        sess.kill();
+    };
     // ---- walk
     let mut next = Some(first_action);
     let mut prev_key: Option<String> = Some(start_key.clone());
